@@ -119,6 +119,7 @@ for _n in ('ceil', 'floor', 'trunc', 'nearbyint', 'rint'):
     op(_n, 'round', C08, FPS, 'b', 'b', 'xsimd::%s(a)' % _n, S.rounding(_n))
 
 op('round', 'round', C08, FPS, 'b', 'b', 'xsimd::round(a)', S.round_spec)
+op('nearbyint_as_int', 'round', ['C08'], FPS, 'b', 'R_<{IT}>', 'xsimd::nearbyint_as_int(a)', WS.nearbyint_as_int_spec, whole=True)
 op('is_flint', 'fp', C02, FPS, 'b', 'm', 'xsimd::is_flint(a)', S.is_flint_spec)
 op('is_even', 'fp', C02, FPS, 'b', 'm', 'xsimd::is_even(a)', S.is_even_spec)
 op('is_odd', 'fp', C02, FPS, 'b', 'm', 'xsimd::is_odd(a)', S.is_odd_spec)
@@ -307,6 +308,13 @@ for _w, _e, _np in (('add', '(%s + %s)' % (_Z1, _Z2), 4), ('sub', '(%s - %s)' % 
                     ('fnma', 'xsimd::fnma(%s, %s, %s)' % (_Z1, _Z2, _Z3), 6), ('fnms', 'xsimd::fnms(%s, %s, %s)' % (_Z1, _Z2, _Z3), 6)):
     for _pt in ('re', 'im'):
         op('c%s_%s' % (_w, _pt), 'complex', C16, FPS, 'b' * _np, 'b', '%s.%s()' % (_e, 'real' if _pt == 're' else 'imag'), S.complex_spec(_w, _pt))
+# compound assignment, with a distinct and with an ALIASED right operand (z op= z must be the textbook z op z as well)
+for _w, _sym in (('add', '+='), ('sub', '-='), ('mul', '*='), ('div', '/=')):
+    for _pt in ('re', 'im'):
+        _get = 'real' if _pt == 're' else 'imag'
+        op('c%s_assign_%s' % (_w, _pt), 'complex', C16, FPS, 'bbbb', 'b', '[&]{{ C_<{T}> z(a, b); z %s C_<{T}>(c, d); return z; }}().%s()' % (_sym, _get), S.complex_spec(_w, _pt))
+        op('c%s_self_%s' % (_w, _pt), 'complex', C16, FPS, 'bb', 'b', '[&]{{ C_<{T}> z(a, b); z %s z; return z; }}().%s()' % (_sym, _get),
+           (lambda w_, p_: (lambda ty, a, b: S.complex_spec(w_, p_)(ty, a, b, a, b)))(_w, _pt))
 op('cnorm', 'complex', C16, FPS, 'bb', 'b', 'xsimd::norm(%s)' % _Z1, S.complex_spec('norm', 're'))
 op('ceq', 'complex', C16, FPS, 'bbbb', 'm', '(%s == %s)' % (_Z1, _Z2), lambda ty, a, b, c, d: [S.P('re == re && im == im', _T.and_(_T.fcmp('oeq', a, c), _T.fcmp('oeq', b, d)))])
 op('cneq', 'complex', C16, FPS, 'bbbb', 'm', '(%s != %s)' % (_Z1, _Z2), lambda ty, a, b, c, d: [S.P('re != re || im != im', _T.or_(_T.fcmp('une', a, c), _T.fcmp('une', b, d)))])
